@@ -6,6 +6,7 @@
   `Gen/KWeek.lean` is regenerated on every run by `bin/gen-kernels`.
 -/
 import MxModel.Gen.KWeek
+import MxModel.Lemmas.KTactic
 import MxModel.Core.Weekly
 import MxModel.Core.Farm
 
@@ -17,17 +18,14 @@ open Mx Mx.Gen Mx.Weekly
 theorem get_week_for_epoch_eq (epoch first : Nat) :
     KWeek.get_week_for_epoch epoch first = weekOf epoch first := by
   have hE : EPOCHS_IN_WEEK = 7 := rfl
-  have h7 : ¬ (7 = 0) := by omega
-  by_cases h : first ≤ epoch
-  · simp only [KWeek.get_week_for_epoch, weekOf, hE, ge_iff_le, req, if_pos h, sub?, div?, if_neg h7,
-      Option.bind_eq_bind, Option.bind_some, Option.pure_def]
-  · simp only [KWeek.get_week_for_epoch, weekOf, ge_iff_le, req, if_neg h, Option.bind_eq_bind,
-      Option.bind_none]
+  k_defs [KWeek.get_week_for_epoch, weekOf, hE]
+  k_solve
 
 /-- source `get_current_week` (view `getCurrentWeek`) IS `weekOf` at the block epoch -/
 theorem get_current_week_eq (epoch first : Nat) :
     KWeek.get_current_week epoch first = weekOf epoch first := by
-  simp only [KWeek.get_current_week, get_week_for_epoch_eq]
+  k_defs [KWeek.get_current_week, get_week_for_epoch_eq]
+  try (cases weekOf epoch first <;> k_solve)
 
 /-- on a farm model state the source's current week is the model's `St.week` -/
 theorem get_current_week_farm (s : Farm.St) :
@@ -38,25 +36,15 @@ theorem get_current_week_farm (s : Farm.St) :
 theorem get_start_epoch_for_week_eq (week first : Nat) :
     KWeek.get_start_epoch_for_week week first =
       if week = 0 then none else some (first + (week - 1) * 7) := by
-  by_cases h : week = 0
-  · have h' : ¬ week ≠ 0 := fun c => c h
-    simp only [KWeek.get_start_epoch_for_week, req, if_neg h', if_pos h, Option.bind_eq_bind,
-      Option.bind_none]
-  · have h' : week ≠ 0 := h
-    have h1 : 1 ≤ week := by omega
-    simp only [KWeek.get_start_epoch_for_week, req, if_pos h', if_neg h, sub?, if_pos h1,
-      Option.bind_eq_bind, Option.bind_some, Option.pure_def]
+  k_defs [KWeek.get_start_epoch_for_week]
+  k_solve
 
 /-- source `get_end_epoch_for_week`: the last epoch of the week, `first + week · 7 − 1` -/
 theorem get_end_epoch_for_week_eq (week first : Nat) :
     KWeek.get_end_epoch_for_week week first =
       if week = 0 then none else some (first + week * 7 - 1) := by
-  simp only [KWeek.get_end_epoch_for_week, get_start_epoch_for_week_eq, Option.bind_eq_bind]
-  by_cases h : week = 0
-  · simp only [if_pos h, Option.bind_none]
-  · have h1 : 1 ≤ first + (week - 1) * 7 + 7 := by omega
-    simp only [if_neg h, Option.bind_some, sub?, if_pos h1, Option.some.injEq]
-    omega
+  k_defs [KWeek.get_end_epoch_for_week, get_start_epoch_for_week_eq]
+  k_solve
 
 /-- the week function and the week bounds are consistent: every epoch of week `w` (between the
     source's start and end epoch of `w`) is mapped to `w` by the source's `get_week_for_epoch` -/
